@@ -51,6 +51,9 @@ var chans = []string{"a/", "a/b/", "c/", "a/", "a/b/", "a/", "x/y/", "y/x/"} // 
 func genCase(class string) func(t *rapid.T) Case {
 	return func(t *rapid.T) Case {
 		c := Case{N: rapid.IntRange(2, 4).Draw(t, "n"), Class: class}
+		if class == "J" { // late joiner: mostly two brokers (with more, full states of two brokers about a third one differ in their add times: the listed double-count finding)
+			c.N = rapid.SampledFrom([]int{2, 2, 2, 3}).Draw(t, "nj")
+		}
 		if c.N >= 3 && (class == "A" || class == "A'") {
 			c.Line = rapid.IntRange(0, 2).Draw(t, "line") == 0
 		}
@@ -85,6 +88,8 @@ func genCase(class string) func(t *rapid.T) Case {
 			case k < 26 && class == "D" && k >= 22:
 				op.K = rapid.SampledFrom([]string{"offline", "reconnect", "reconnect"}).Draw(t, "dk")
 				op.A, op.B2 = link()
+			case k >= 21 && k < 23 && class == "J":
+				op.K = "join"
 			case k < 23 && (class == "A" || class == "A'" || class == "C"):
 				op.K = "fullsync"
 				op.A, op.B2 = link()
@@ -101,6 +106,12 @@ func genCase(class string) func(t *rapid.T) Case {
 				op.K = "sub"
 			}
 			c.Ops = append(c.Ops, op)
+		}
+		if class == "J" {
+			c.Ops = append(c.Ops, Op{K: "join"}, Op{K: "check"})
+			for i, n := 0, rapid.IntRange(0, 6).Draw(t, "after"); i < n; i++ { // subscriptions learnt from the full state end afterwards
+				c.Ops = append(c.Ops, Op{K: rapid.SampledFrom([]string{"unsub", "unsub", "disc", "sub", "check"}).Draw(t, "ak"), C: rapid.IntRange(0, nc-1).Draw(t, "ac"), Ch: rapid.SampledFrom(chans).Draw(t, "ach")})
+			}
 		}
 		c.Ops = append(c.Ops, Op{K: "pub", B: rapid.IntRange(0, c.N-1).Draw(t, "fb"), Ch: rapid.SampledFrom(chans).Draw(t, "fch")})
 		return c
@@ -177,11 +188,9 @@ func run(c Case) (res vkit.Result) {
 	offlineThenBack := false
 	failf := func(format string, a ...interface{}) vkit.Result {
 		r := vkit.Failf(format, a...)
-		switch {
+		switch { // the double-count defect (two add times for one entry) is repaired: it is no longer a way to explain a failure
 		case net.Coalesced() > 0:
 			r.Finding = fCoalesce
-		case doubleAdd:
-			r.Finding = fDouble
 		case offlineThenBack:
 			r.Finding = fOffline
 		}
@@ -195,6 +204,15 @@ func run(c Case) (res vkit.Result) {
 			}
 		}
 	}()
+	isolated := map[int]bool{}
+	if c.Class == "J" {
+		// the last broker has no link to the others yet (it joins later): nobody has ever heard of it, no callbacks
+		x := c.N - 1
+		isolated[x] = true
+		for y := 0; y < x; y++ {
+			net.Disconnect(x, y)
+		}
+	}
 	clients := make([]*mclient, len(c.Home))
 	attach := func(i, b int) error {
 		cl := brokers[b].Attach(fmt.Sprintf("c%d@%d", i, b))
@@ -222,7 +240,6 @@ func run(c Case) (res vkit.Result) {
 	ssidOf := func(ch string) message.Ssid {
 		return message.NewSsid(brokers[0].Lic.Contract(), security.ParseChannel([]byte(key+"/"+ch)).Query)
 	}
-	isolated := map[int]bool{}
 	reachable := func(a, b int) bool { return a == b || (!isolated[a] && !isolated[b]) }
 	wantRemote := func(j int, ch string) []string {
 		set := map[string]bool{}
@@ -358,6 +375,16 @@ func run(c Case) (res vkit.Result) {
 					}
 				}
 			}
+		case "join":
+			x := c.N - 1
+			if !isolated[x] {
+				continue
+			}
+			delete(isolated, x)
+			for y := 0; y < x; y++ {
+				net.Reconnect(x, y) // a new connection: full state both ways
+			}
+			labels["late-joiner-full-state"] = true
 		case "reconnect":
 			x := op.B2
 			if !isolated[x] {
@@ -511,6 +538,7 @@ func TestClassAPrime(t *testing.T) { vkit.Check(t, genCase("A'"), run) }
 func TestClassB(t *testing.T)      { vkit.Check(t, genCase("B"), run) }
 func TestClassC(t *testing.T)      { vkit.Check(t, genCase("C"), run) }
 func TestClassD(t *testing.T)      { vkit.Check(t, genCase("D"), run) }
+func TestClassJ(t *testing.T)      { vkit.Check(t, genCase("J"), run) }
 
 // TestProbes replays the minimal reproduction of each listed finding.
 func TestProbes(t *testing.T) {
@@ -519,7 +547,9 @@ func TestProbes(t *testing.T) {
 		c  Case
 	}{
 		{fCoalesce, Case{N: 2, Class: "B", Home: []int{0}, Ops: []Op{{K: "sub", Ch: "a/"}, {K: "sub", Ch: "a/b/"}, {K: "check"}}}},
+		// repaired defects stay as regression probes: a failure here is a violation (their ids are not listed any more)
 		{fDouble, Case{N: 2, Class: "C", Home: []int{1}, Ops: []Op{{K: "periodic", A: 1, B2: 0}, {K: "sub", Ch: "a/b/"}, {K: "check"}, {K: "unsub", Ch: "a/b/"}, {K: "check"}}}},
+		{"C05-fullstate-tombstone-uncounts", Case{N: 2, Class: "J", Home: []int{1}, Ops: []Op{{K: "sub", Ch: "a/"}, {K: "disc"}, {K: "connect", B: 1}, {K: "sub", Ch: "a/"}, {K: "join"}, {K: "check"}}}},
 		{fOffline, Case{N: 2, Class: "D", Home: []int{1}, Ops: []Op{{K: "sub", Ch: "a/"}, {K: "check"}, {K: "offline", B2: 1}, {K: "reconnect", B2: 1}, {K: "check"}}}},
 	}
 	for _, p := range probes {
